@@ -192,3 +192,4 @@ pub fn nested_twin(a: u64, big: Big) -> Result<u64, String> {
     while i < f(1) { i += m2(); if cond() { break; } }
     match fallible() { Ok(v) => { m3(); Ok(v + big.a) } Err(e) => { m4(); Err(e) } }
 }
+pub mod generated;
